@@ -2,6 +2,13 @@
 #pragma once
 #include "corpus.h"
 
+// every combination of user info x host kind x port (absent, empty, digits): the authority is copied and compared as a unit, and its
+// parts must not depend on each other (a port lost for one host kind, a host kind decided by what follows it)
+static inline std::vector<Str> authority_product() {
+    std::vector<Str> v;
+    for (auto ui : { "", "u@", "@" }) for (auto h : { "h", "1.2.3.4", "[1::2]", "[v1.a]", "1%2E2.3.4", "" }) for (auto po : { "", ":", ":8" }) v.push_back(Str("//") + ui + h + po);
+    return v;
+}
 static inline std::vector<Str> resolve_bases(bool with_relative) {
     static const char *auth[] = { 0, "//h", "//", "//u@h:1", "//[::1]", "//1.2.3.4", "//[vF.b]" };
     static const char *path[] = { "", "/", "/a", "/a/", "/a/b", "/a//", "//a", "a", "a/b", "a/", "/.", "/a/..", "/a/../b/c", "/./a/b", "/x/..//y/z", "a/./b" };   // the last four: dot segments among the directories of the base
@@ -12,6 +19,7 @@ static inline std::vector<Str> resolve_bases(bool with_relative) {
         Str s = Str("s:") + (a ? a : "") + pp + (q ? q : "");
         if (ref::is_uri_reference(s) && seen.insert(s).second) v.push_back(s);
     }
+    for (auto &au : authority_product()) for (auto p : { "", "/a/b" }) { Str t = "s:" + au + p; if (ref::is_uri_reference(t) && seen.insert(t).second) v.push_back(t); }
     for (auto s : { "sx://h/a/b", "sx:/a", "sx:a/b?bq", "S://h/a/b" }) v.push_back(s);   // a base whose scheme extends / differs in case from the references' "s"
     if (with_relative) for (auto s : { "", "/a", "//h/a", "a" }) v.push_back(s);
     return v;
@@ -32,6 +40,7 @@ static inline std::vector<Str> resolve_refs(int n, bool rich = true) {
         if (!ref::is_uri_reference(head)) continue;
         for (auto q : query) for (auto f : frag) { Str s = head + (q ? q : "") + (f ? f : ""); if (seen.insert(s).second) v.push_back(s); }
     }
+    if (rich) for (auto &au : authority_product()) for (auto sc : { "", "s:" }) for (auto p : { "", "/", "/a/../b" }) for (auto q : { "", "?q" }) { Str t = Str(sc) + au + p + q; if (ref::is_uri_reference(t) && seen.insert(t).second) v.push_back(t); }
     // deeper paths over a reduced alphabet (runs of empty segments behind dot segments need four and more tokens), bare and with an own scheme
     std::vector<Str> deep = path_token_paths({ "", ".", "..", "b" }, n + 2, 0), deep_abs = path_token_paths({ "", ".", "..", "b" }, n + 2, 1);
     deep.insert(deep.end(), deep_abs.begin(), deep_abs.end());
